@@ -24,7 +24,7 @@ MISMATCH = {"NonMatchingChecksum", "NonMatchingObjSize"}
 
 
 def examples(tier):
-    return 1600 if tier == "quick" else 15000
+    return 1600 if tier == "quick" else 60000
 
 
 @st.composite
